@@ -316,6 +316,56 @@ var scenarios = []scenario{
 			s.opRead(f, 8192, 16384)
 		}
 	}},
+	{"long names and a name cache rebuilt from the directory", func(s *seqRun) {
+		// 40 names of 110 bytes (the limit is 112): the per-directory name cache, rebuilt from the
+		// directory blocks after any aborted request, must hold every one of them again
+		d := s.mk("mkdir", s.root(), "longnames")
+		name := func(i int) string { return fmt.Sprintf("f%03d-", i) + strings.Repeat("n", 105) }
+		for i := 0; i < 40; i++ {
+			s.mk("create", d, name(i))
+		}
+		s.opLookup(d, "missing") // fails: the transaction is aborted and the cached directory dropped
+		for _, i := range []int{0, 20, 36, 37, 38, 39} {
+			s.opLookup(d, name(i))
+		}
+		s.opCreate("create", d, name(39), 1, nil) // GUARDED: exists
+		s.opRemove("remove", d, name(38))
+		s.opLookup(d, "missing")
+		s.opLookup(d, name(38))
+		s.opRename(d, name(37), d, name(38))
+		s.opReaddir(d, 0, 0xffffffff)
+		s.dirScan(d)
+		s.opRestart()
+		s.opLookup(d, name(39))
+		s.opLookup(d, name(38))
+		s.opCreate("create", d, name(36), 1, nil)
+		s.dirScan(d)
+	}},
+	{"pages of a directory with names of mixed lengths", func(s *seqRun) {
+		// where a page ends depends on the size of the entries; whatever the budgets, the pages
+		// together are the directory
+		d := s.mk("mkdir", s.root(), "mixed")
+		for i := 0; i < 40; i++ {
+			if i%2 == 0 {
+				s.mk("create", d, fmt.Sprintf("report-of-the-quarter-%02d.final.txt", i))
+			} else {
+				s.mk("create", d, fmt.Sprintf("f%02d", i))
+			}
+		}
+		s.dirScan(d)
+		for _, mc := range []uint32{1269, 1400, 2000, 2600} {
+			s.opReaddirplus(d, 0, 0xffffffff, mc)
+			s.opReaddirplus(d, 9*128, 0xffffffff, mc)
+		}
+		for i := 0; i < 40; i += 3 {
+			if i%2 == 0 {
+				s.opRemove("remove", d, fmt.Sprintf("report-of-the-quarter-%02d.final.txt", i))
+			} else {
+				s.opRemove("remove", d, fmt.Sprintf("f%02d", i))
+			}
+		}
+		s.dirScan(d)
+	}},
 	{"more data than count: the surplus never becomes file content", func(s *seqRun) {
 		// a WRITE carries count bytes; a request buffer longer than count must leave no trace —
 		// not even beyond the new end of file, where a later extension would expose it
